@@ -136,10 +136,10 @@ func OverWidth(p rtcp.Packet, mode int) int {
 	return n
 }
 
-// OverWidthEach builds, for every leaf whose Go type is wider than its wire field (at most the first,
-// a middle and the last occurrence of each field), the packet with just that leaf set to 1<<width and
+// OverWidthEach builds, for every leaf whose Go type is wider than its wire field (the first, a middle
+// and the last occurrence of each field, or every occurrence when all is set), the packet with just that leaf set to 1<<width and
 // to the largest value of its Go type.
-func OverWidthEach(mk func() rtcp.Packet, yield func(p rtcp.Packet, path, key string, v uint64)) {
+func OverWidthEach(mk func() rtcp.Packet, all bool, yield func(p rtcp.Packet, path, key string, v uint64)) {
 	base := Leaves(mk())
 	byKey := map[string][]int{}
 	var keys []string
@@ -156,7 +156,7 @@ func OverWidthEach(mk func() rtcp.Packet, yield func(p rtcp.Packet, path, key st
 		idx := byKey[k]
 		pick := map[int]bool{idx[0]: true, idx[len(idx)/2]: true, idx[len(idx)-1]: true}
 		for _, i := range idx {
-			if !pick[i] {
+			if !pick[i] && !all {
 				continue
 			}
 			for mode := 0; mode < 2; mode++ {
